@@ -128,11 +128,17 @@ structure SeriesReq where
   replicas : List Str
   deriving DecidableEq, Repr
 
-/-- fmt.Sprintf("fe:%s:%s:%d:%d", userID, tr.Matchers, splitInterval, currentInterval) -/
-def seriesKey (r : SeriesReq) : Option Str :=
+/-- the series key.  `full = true` (the repository now):
+    fmt.Sprintf("fe:%s:%s:%d:%d:%t:%s", userID, tr.Matchers, splitInterval, currentInterval,
+                tr.PartialResponse, strings.Join(sortedReplicaLabels, ","));
+    `full = false` (as found): fmt.Sprintf("fe:%s:%s:%d:%d", userID, tr.Matchers, splitInterval, currentInterval) -/
+def seriesKeyWith (full : Bool) (r : SeriesReq) : Option Str :=
   if r.splitMs = 0 then none else
-  some (col (col (col (['f', 'e', ':'] ++ r.tenant) r.matchers) (showInt r.splitMs))
-    (showInt (r.start.tdiv r.splitMs)))
+  let k := col (col (col (['f', 'e', ':'] ++ r.tenant) r.matchers) (showInt r.splitMs))
+    (showInt (r.start.tdiv r.splitMs))
+  some (if full then col (col k (showBool r.partialResp)) (joinComma (sortS r.replicas)) else k)
+
+def seriesKey (r : SeriesReq) : Option Str := seriesKeyWith true r
 
 /-- containsUnsafePathSegments + SingleResolver.TenantID: which tenant ids the frontend accepts -/
 def tenantAccepted (t : Str) : Bool :=
